@@ -5,6 +5,19 @@ HERE = os.path.dirname(os.path.dirname(os.path.abspath(__file__)))
 ALL = ['C%02d' % i for i in range(1, 21)]
 
 CLAIMED = {
+ 'C09': dict(
+    level='model_checking',
+    text='Module.tla is the decoding automaton of the binary container (sections, literal table, DATA parts and items incl. empty ones, '
+         'global size) and of the instruction encodings, with opcode numbering and operand widths as a constant extracted from '
+         'qvm/instrs.py. For each accepted program (generated, plus stress programs: many and non-ASCII literals, DATA layouts, many routines '
+         'and labels, every opcode family) in all configurations TLC decodes the recorded module bytes item by item and requires five '
+         'recorded streams to coincide with the decoding at every item (emitted by the compiler, recovered by QModule.parse, seen by the CPU '
+         'decoder, printed by disassemble(), shown by the listing); then the structural invariants are evaluated on the decoded code: jump / '
+         'call / ON ERROR operands are instruction starts (or the two reserved codes), variable operands lie inside the frame declared by the '
+         'routine\'s FRAME instruction or inside the global area, literal indexes exist, a listing label denotes the instruction after it.',
+    note='Trusted: TLC, struct.pack re-encoding of decoded operand values in the harness, parsing of the disassembly and listing text. Frame declarations are checked against the operands used, not re-derived from the .routines listing.',
+    technique='TLA+ decoding automaton run by TLC over real module bytes; event-by-event agreement of five recorded streams; structural invariants',
+    design='6 C09'),
  'C04': dict(
     level='model_checking',
     text='Layout.tla states the frame layout (size of a declaration; the cell of every access path through arrays of rank 1-3 with arbitrary '
